@@ -444,15 +444,18 @@ class LoaderGroup(Generic[_K, _L]):
         pl.DataFrame
             A data frame with FSC results.
         """
-        if mask is None:
-            _mask = 1
-            output_shape = None
-        elif isinstance(mask, np.ndarray):
-            _mask = mask
-            output_shape = mask.shape
-        else:
-            _mask = 1
-            output_shape = None
+        _masks: dict[_K, NDArray[np.float32] | int] = {}
+        output_shape = None
+        for key, loader in self:
+            if mask is None:
+                _masks[key] = 1
+            elif isinstance(mask, np.ndarray):
+                _masks[key] = mask
+            else:
+                # ImageProvider must be evaluated with the scale of each loader
+                _masks[key] = np.asarray(loader.normalize_template(mask))
+            if not isinstance(_masks[key], int):
+                output_shape = _masks[key].shape  # type: ignore
 
         if n_set <= 0:
             raise ValueError("'n_set' must be positive.")
@@ -470,7 +473,7 @@ class LoaderGroup(Generic[_K, _L]):
             for i in range(n_set):
                 img0, img1 = img[i]
                 freq, fsc = _utils.fourier_shell_correlation(
-                    img0 * _mask, img1 * _mask, dfreq=dfreq
+                    img0 * _masks[key], img1 * _masks[key], dfreq=dfreq
                 )
                 fsc_all[f"FSC-{i}"] = fsc
 
